@@ -204,6 +204,7 @@ pub fn subs() -> Vec<Box<dyn AnySub>> {
             check: check_large,
         }),
         Box::new(Sub { name: "direct", quick: 40_000, thorough: 600_000, strat: direct, check: check_direct }),
+        Box::new(EnumSub { name: "secret-capacities", exhaustive: true, list: super::c06::cap_list, check: check_cap_total }),
         Box::new(EnumSub { name: "direct-bytes", exhaustive: true, list: |_| (0u16..256).map(|b| b as u8).collect(), check: check_byte }),
     ]
 }
@@ -547,5 +548,19 @@ pub fn check_byte(b: &u8, cc: &mut CaseCtx) -> CheckResult {
             Ok(())
         }
         Err(p) => Err(Failure::new("panic:byte-helper", exec::panic_message(p))),
+    }
+}
+
+/// KSecretKey::<M>::from_str never panics, for any capacity (the Ok/Err boundary itself is C06's business).
+pub fn check_cap_total(c: &super::c06::Cap, cc: &mut CaseCtx) -> CheckResult {
+    let mut inner = CaseCtx::default();
+    match super::c06::check_cap(c, &mut inner) {
+        Err(f) if f.sig.starts_with("panic") => Err(f),
+        _ => {
+            cc.class("from_str-capacity");
+            cc.class_if(c.capacity < 4, "capacity<4");
+            cc.nontrivial(digest_of(&[c.secret.as_bytes(), &c.capacity.to_le_bytes()]));
+            Ok(())
+        }
     }
 }
